@@ -19,6 +19,15 @@ def run(ctx):
         nmodel, nsim = len(mc.scenarios), len(sim.scenarios)
         if nsim == 0:
             raise vlib.Inconclusive("TLC simulation exported no random walk")
+        # a long password: credentials that agree with it on their first 512 or 1024 bytes only are not the password
+        tok = lambda k, sym: {"k": k, "s": sym, "n": 0, "big": "", "f": "", "fs": "", "ex": False, "w": "", "cs": ""}
+        R = lambda name, *a: {"cls": "c08", "name": name, "args": list(a)}
+        for wrong in ("pw:long512", "pw:long1024", "pw:longcut", "pw:exact"):
+            scenarios.append({"requirepass": "pw:long", "handler": "rec", "tracer": False, "nconns": 2, "steps": [
+                {"c": 0, "op": "send", "reqs": [R("AUTH", tok("str", wrong)), R("GET", tok("key", "k1"))]},
+                {"c": 1, "op": "send", "reqs": [R("GET", tok("key", "k1")), R("AUTH", tok("str", "u:default"), tok("str", wrong)), R("GET", tok("key", "k2"))]},
+                {"c": 0, "op": "send", "reqs": [R("AUTH", tok("str", "pw:long")), R("GET", tok("key", "k1"))]},
+                {"c": 1, "op": "send", "reqs": [R("GET", tok("key", "k2"))]}]})
         # the same server object has been run before (with the password, without one, and now with it again): a sample of
         # the scenarios is replayed on such a server
         scenarios += [dict(s, passcycle=True) for s in scenarios[::5] if s.get("requirepass")]
